@@ -32,6 +32,11 @@ def alias_of(*vs):
     return out
 
 
+def BCAST(name):
+    """alias tag of a broadcast view (np.broadcast_to / np.broadcast_arrays): elements along an expanded axis share one memory location"""
+    return frozenset([('bcast', name)])
+
+
 def maybe(alias):
     return frozenset(a if (a and a[0] == 'maybe') else ('maybe',) + tuple(a) for a in alias)
 
@@ -774,7 +779,7 @@ def h_view(axis_rule=None):
             # a pure reordering of a unit-norm array whose axis order could not be followed (computed at run time): still of unit norm along SOME axis - the typestate
             # is lost (undecided at the sink), not RAW
             norm = None
-        return AV(kind=ARR, deps=x.deps, alias=x.alias, shape=shape, norm=norm, sign=x.sign, dtype=x.dtype, vid=None,
+        return AV(kind=ARR, deps=x.deps, alias=(x.alias | BCAST(name)) if axis_rule == 'broadcast_to' else x.alias, shape=shape, norm=norm, sign=x.sign, dtype=x.dtype, vid=None,
                   meta=('view', name, x))
     return h
 
@@ -1037,8 +1042,9 @@ def h_slogdet(ev, name, pos, kw, ctx, t):
 
 
 def h_broadcast_arrays(ev, name, pos, kw, ctx, t):
-    outs = tuple(AV(kind=ARR, deps=p.deps, alias=p.alias, norm=p.norm, sign=p.sign, dtype=p.dtype) for p in pos)
-    return AV(kind=frozenset(['list']), tup=outs, deps=deps_of(*pos), alias=alias_of(*pos))
+    # every result is a (possibly stride-0) view of its argument: the tag ('bcast', ..) marks memory in which several elements may share one location
+    outs = tuple(AV(kind=ARR, deps=p.deps, alias=p.alias | BCAST('numpy.broadcast_arrays'), norm=p.norm, sign=p.sign, dtype=p.dtype) for p in pos)
+    return AV(kind=frozenset(['list']), tup=outs, deps=deps_of(*pos), alias=alias_of(*pos) | BCAST('numpy.broadcast_arrays'))
 
 
 def h_mutator(target_index=0):
@@ -1150,7 +1156,23 @@ reg('numpy.conj numpy.conjugate', h_elementwise('same', keeps_norm=True))
 reg('numpy.real numpy.imag', h_elementwise(None, dtype='real'))
 reg('numpy.isfinite numpy.isnan numpy.isinf numpy.logical_not', h_elementwise(None, dtype='bool'))
 reg('numpy.logical_and numpy.logical_or numpy.equal numpy.not_equal numpy.greater numpy.less', h_elementwise(None, dtype='bool', nargs=2))
-reg('numpy.add numpy.subtract numpy.multiply numpy.divide numpy.true_divide numpy.power numpy.matmul numpy.dot numpy.outer numpy.kron numpy.cross numpy.mod numpy.hypot', h_elementwise(None, nargs=2))
+reg('numpy.add numpy.subtract numpy.multiply numpy.power numpy.matmul numpy.dot numpy.outer numpy.kron numpy.cross numpy.mod numpy.hypot', h_elementwise(None, nargs=2))
+
+
+def h_divide(ev, name, pos, kw, ctx, t):
+    """np.divide(a, b[, out=]) is a / b: the unit-norm typestate and the end of the scale taint of `x / ||x||` hold for the ufunc spelling as for the operator (round 14, S254)"""
+    r = h_elementwise(None, nargs=2)(ev, name, pos, kw, ctx, t)
+    if len(pos) >= 2:
+        try:
+            q = binop(ev, t, 'Div', pos[0], pos[1], False, ctx)
+        except Exception:
+            q = None
+        if q is not None and isinstance(q.norm, tuple):
+            r = AV(kind=r.kind, deps=q.deps, alias=r.alias, shape=r.shape, sign=r.sign, norm=q.norm, dtype=r.dtype, meta=r.meta)
+    return r
+
+
+reg('numpy.divide numpy.true_divide', h_divide)
 reg('numpy.maximum numpy.fmax', h_maximum)
 reg('numpy.minimum numpy.fmin', h_minimum)
 reg('numpy.where', h_where)
